@@ -549,6 +549,76 @@ def wildcard_sibling_first_cells(ctx):
             ctx.outcome("step-trait-event")
 
 
+def foreign_default_cells(ctx):
+    """the link's lazily created default is an object of a base class that
+    does not have the observed trait at all (it was never hooked, being
+    created after the observer was attached, or before it - then the observer
+    cannot be attached, which is the documented error); the first real
+    assignment replaces it without complaint and the new object is followed"""
+    from traits.api import HasTraits, Instance, Int
+
+    class Base(HasTraits):
+        pass
+
+    class Leaf(Base):
+        value = Int
+
+    for link in ("child:value", "child.value"):
+        for read_first in (False, True):
+            case = {"wildcard_cell": "foreign-default", "first": link,
+                    "read_first": read_first}
+            ctx.case(case)
+            ctx.ev()
+            ctx.tr()
+
+            class Root(HasTraits):
+                child = Instance(Base, ())
+            root = Root()
+            calls = []
+
+            def h(ev):
+                calls.append(getattr(ev, "name", None))
+            root.observe(h, link)
+            leaf = Leaf()
+            try:
+                if read_first:
+                    root.child          # materialises the default (silent)
+                root.child = leaf
+            except Exception as exc:
+                if read_first:
+                    # (the default, once it exists under an observer that
+                    #  needs `value`, is the documented "trait not found")
+                    continue
+                ctx.violation("C08:foreign-default:raises", "%s: assigning "
+                              "the first real child raised %r" % (link, exc),
+                              **case)
+                continue
+            want = 1 if "." in link else 0
+            if calls.count("child") != want:
+                ctx.violation("C08:foreign-default:link-event", "%s: %d "
+                              "event(s) for the link" % (
+                                  link, calls.count("child")), **case)
+            calls.clear()
+            leaf.value += 1
+            if calls != ["value"]:
+                ctx.violation("C08:foreign-default:not-followed", "%s: the "
+                              "assigned object is reachable; changing its "
+                              "value gave %r" % (link, calls), **case)
+                continue
+            leaf2 = Leaf()
+            root.child = leaf2
+            calls.clear()
+            leaf.value += 1
+            leaf2.value += 1
+            if calls != ["value"]:
+                ctx.violation("C08:foreign-default:after-replacement",
+                              "%s: after a second assignment the detached "
+                              "and the new object together gave %r"
+                              % (link, calls), **case)
+            else:
+                ctx.outcome("probe-called")
+
+
 #: expressions with large menus: events on the root only, one level less
 ROOT_ONLY = {"+coll.items.value"}
 
@@ -578,6 +648,7 @@ def run_shard(ctx, shard, tier):
     if ename == "__wildcard__":
         wildcard_cells(ctx)
         wildcard_sibling_first_cells(ctx)
+        foreign_default_cells(ctx)
         ctx.depth_completed = 2
         return
     evs = menu(ename)
@@ -626,6 +697,7 @@ def replay(rec):
     if c.get("wildcard_cell"):
         wildcard_cells(ctx)
         wildcard_sibling_first_cells(ctx)
+        foreign_default_cells(ctx)
         for v in ctx.violations.values():
             print("  violation:", v["sig"], v["msg"])
         return not ctx.violations
